@@ -372,13 +372,17 @@ def run_job(plan, j, tier):
                 continue
     while any(x.is_alive() for x in threads) and not done.is_set():
         time.sleep(0.2)
-    # kill the rest
-    for be, p in list(procs.items()):
-        if p.poll() is None:
-            try:
-                os.killpg(p.pid, signal.SIGKILL)
-            except ProcessLookupError:
-                pass
+    # kill the rest (repeatedly: a worker that was started just before the first answer arrived registers its process late)
+    while True:
+        for be, p in list(procs.items()):
+            if p.poll() is None:
+                try:
+                    os.killpg(p.pid, signal.SIGKILL)
+                except ProcessLookupError:
+                    pass
+        if not any(x.is_alive() for x in threads):
+            break
+        time.sleep(0.2)
     for t in threads:
         t.join()
     R.wall_s = time.time() - t0
